@@ -39,6 +39,19 @@ pub struct FairQueue<S, K: Clone> {
     inner: Arc<Mutex<QueueInner<S, K>>>,
 }
 
+impl<S, K: Clone> Drop for FairQueue<S, K> {
+    /// The queue itself is owned by the socket; everybody else (backends,
+    /// per-stream wakers registered with the I/O driver) only holds handles to
+    /// the shared part. A waker stored inside a stream's own transport points
+    /// back at that shared part, so the streams must be released explicitly or
+    /// they keep each other, and their connections, alive for ever.
+    fn drop(&mut self) {
+        let mut inner = self.inner.lock();
+        inner.streams.clear();
+        inner.ready_queue.clear();
+    }
+}
+
 #[derive(Clone)]
 struct ReadyEvent<K: Clone> {
     priority: usize,
